@@ -198,3 +198,159 @@ type wgZero WaitGroup
 
 //go:norace
 func (w *wgZero) OpEnabled() bool { return w.n == 0 }
+
+// Once: the first caller runs f; later callers wait until it has returned.
+type Once struct {
+	m    Mutex
+	done bool
+}
+
+//go:norace
+func (o *Once) Do(f func()) {
+	o.m.Lock()
+	defer o.m.Unlock()
+	if !o.done {
+		defer func() { o.done = true }()
+		f()
+	}
+}
+
+// Cond on top of the modelled mutex: Wait releases L, parks until signalled, re-acquires L.
+type Cond struct {
+	L       Locker
+	id      uint64
+	epoch   *vsched.Exec
+	waiters []*condWaiter
+}
+
+type condWaiter struct{ woken bool }
+
+//go:norace
+func (w *condWaiter) OpEnabled() bool { return w.woken }
+
+//go:norace
+func NewCond(l Locker) *Cond { return &Cond{L: l} }
+
+//go:norace
+func (c *Cond) Wait() {
+	w := &condWaiter{}
+	c.waiters = append(c.waiters, w)
+	c.L.Unlock()
+	vsched.Point(&vsched.Op{Kind: "cond.wait", Obj: vsched.ObjID(&c.id, &c.epoch), Write: true, En: w})
+	vrace.Acquire(unsafe.Pointer(c))
+	c.L.Lock()
+}
+
+//go:norace
+func (c *Cond) Signal() {
+	vrace.ReleaseMerge(unsafe.Pointer(c))
+	vsched.Event("cond.signal", vsched.ObjID(&c.id, &c.epoch), true)
+	for i, w := range c.waiters {
+		if !w.woken {
+			w.woken = true
+			c.waiters = vrace.RemoveAt(c.waiters, i)
+			return
+		}
+	}
+}
+
+//go:norace
+func (c *Cond) Broadcast() {
+	vrace.ReleaseMerge(unsafe.Pointer(c))
+	vsched.Event("cond.broadcast", vsched.ObjID(&c.id, &c.epoch), true)
+	for _, w := range c.waiters {
+		w.woken = true
+	}
+	c.waiters = nil
+}
+
+// Map: a mutex-protected map with the sync.Map API.
+type Map struct {
+	mu   Mutex
+	keys []any
+	vals []any
+}
+
+//go:norace
+func (m *Map) find(k any) int {
+	for i, x := range m.keys {
+		if x == k {
+			return i
+		}
+	}
+	return -1
+}
+
+//go:norace
+func (m *Map) Load(k any) (any, bool) {
+	m.mu.Lock()
+	defer m.mu.Unlock()
+	if i := m.find(k); i >= 0 {
+		return m.vals[i], true
+	}
+	return nil, false
+}
+
+//go:norace
+func (m *Map) Store(k, v any) {
+	m.mu.Lock()
+	defer m.mu.Unlock()
+	if i := m.find(k); i >= 0 {
+		m.vals[i] = v
+		return
+	}
+	m.keys = append(m.keys, k)
+	m.vals = append(m.vals, v)
+}
+
+//go:norace
+func (m *Map) LoadOrStore(k, v any) (any, bool) {
+	m.mu.Lock()
+	defer m.mu.Unlock()
+	if i := m.find(k); i >= 0 {
+		return m.vals[i], true
+	}
+	m.keys = append(m.keys, k)
+	m.vals = append(m.vals, v)
+	return v, false
+}
+
+//go:norace
+func (m *Map) LoadAndDelete(k any) (any, bool) {
+	m.mu.Lock()
+	defer m.mu.Unlock()
+	if i := m.find(k); i >= 0 {
+		v := m.vals[i]
+		m.keys = vrace.RemoveAt(m.keys, i)
+		m.vals = vrace.RemoveAt(m.vals, i)
+		return v, true
+	}
+	return nil, false
+}
+
+//go:norace
+func (m *Map) Delete(k any) { m.LoadAndDelete(k) }
+
+//go:norace
+func (m *Map) Range(f func(k, v any) bool) {
+	m.mu.Lock()
+	ks := make([]any, len(m.keys))
+	vs := make([]any, len(m.vals))
+	for i := range m.keys {
+		ks[i], vs[i] = m.keys[i], m.vals[i]
+	}
+	m.mu.Unlock()
+	for i := range ks {
+		if !f(ks[i], vs[i]) {
+			return
+		}
+	}
+}
+
+// OnceFunc / OnceValue helpers of package sync.
+//
+//go:norace
+func OnceFunc(f func()) func() {
+	var o Once
+	return func() { o.Do(f) }
+}
